@@ -351,6 +351,30 @@ def run_more(chk, repo):
                     and all(isinstance(e, ast.Constant) for e in n.iter.elts) \
                     and any(isinstance(x, ast.Attribute) and x.attr == 'typeix' for x in ast.walk(n)):
                 order = [e.value for e in n.iter.elts]
+    if not order or not all(isinstance(t, str) for t in order):
+        # idiom 3: a recursive helper that tries kinds[0] and calls itself with kinds[1:]; the order is the constant tuple
+        # it is started with
+        def head_tail(fnode, par, callee_name):
+            head = any(isinstance(n, ast.Subscript) and isinstance(n.value, ast.Attribute) and n.value.attr == 'typeix'
+                       and unparse(n.slice) == f'{par}[0]' for n in ast.walk(fnode))
+            tails = [(c, i) for c in ast.walk(fnode) if isinstance(c, ast.Call) and dotted(c.func) == callee_name
+                     for i, a_ in enumerate(c.args) if unparse(a_) == f'{par}[1:]']
+            return head, tails
+        order = []
+        for a_ in ast.walk(fo.node):
+            if isinstance(a_, ast.Assign) and isinstance(a_.targets[0], ast.Name) and isinstance(a_.value, (ast.Tuple, ast.List)) \
+                    and a_.value.elts and all(isinstance(e, ast.Constant) and isinstance(e.value, str) for e in a_.value.elts):
+                par = a_.targets[0].id
+                for c in calls_in(fo.node):
+                    g = pm.functions.get(dotted(c.func) or '')
+                    if g is None:
+                        continue
+                    head, tails = head_tail(fo.node, par, dotted(c.func))
+                    if head and tails:
+                        q = g.node.args.args[tails[0][1]].arg if tails[0][1] < len(g.node.args.args) else None
+                        ghead, gtails = head_tail(g.node, q, g.name) if q else (False, [])
+                        if ghead and gtails and gtails[0][1] == tails[0][1]:
+                            order = [e.value for e in a_.value.elts]
     if not order:
         raise AnalysisError('R6: column type lookups of filter_observations not recognised')
     chk.instance(R6, f'filter_observations looks the record kind up in the order {order}')
